@@ -237,18 +237,12 @@ impl DegreeMeta for Expression {
                         result = result || index.propagate_degrees(env);
                     }
                 }
-                if env.degree(var).is_none() {
-                    // This is the first assignment to the array. The degree is given by the RHS.
-                    if let Some(range) = rhe.degree() {
-                        result = result || meta.degree_knowledge_mut().set_degree(range);
-                    }
-                } else {
-                    // The array has been assigned to previously. The degree is the infimum of
-                    // the degrees of `var` and the RHS.
-                    let range = DegreeRange::iter_opt([env.degree(var), rhe.degree()]);
-                    if let Some(range) = range {
-                        result = result || meta.degree_knowledge_mut().set_degree(&range);
-                    }
+                // The degree is the infimum of the degrees of `var` and the RHS. (An array which
+                // has not been assigned to holds zeros and has constant degree. If the degree of
+                // `var` is not known, nothing is known about the degree of the updated array.)
+                let range = DegreeRange::iter_opt([env.degree(var), rhe.degree()]);
+                if let Some(range) = range {
+                    result = result || meta.degree_knowledge_mut().set_degree(&range);
                 }
                 result
             }
